@@ -63,6 +63,13 @@ CHECKS = {
         technique="deterministic simulation of emitted VHDL (seeded scheduler, input offsets, stimulus) vs executable reference model of the assignment semantics",
         ref="6/C03",
     ),
+    "C08": dict(
+        level="exploration",
+        text="Two halves. Dynamic (the poison fault): VSIM keeps every compiler-generated process variable as a per-activation local, so a read before a write in the same activation raises ReadBeforeWrite in every simulated run of every check (C01, C03, C04, C12, C14-C16, C20). Static: an enumerated placement workload -- 12 constructs (if / elif / else chains, match with and without default, for-break chains with and without else, nested ifs, coroutine state boundaries) x every subset of branches defining a value x optional predefinition x use site (after the construct, in a sibling branch, in a later state) x context kind: 559 cases. Cases the statement says must be rejected have to be rejected by the compiler; accepted cases are simulated with every path forced (value comparison + read-before-write monitor).",
+        note="Trusted: VSIM's variable scoping (temporaries are activation-local), the expected-reject table written from the statement. Unexpected rejections are counted, not flagged.",
+        technique="deterministic simulation with the read-before-write (poison) monitor + enumerated placement cases compiled by the real compiler and simulated with all paths forced",
+        ref="6/C08",
+    ),
 }
 
 NOT_APPLICABLE = {
